@@ -195,9 +195,19 @@ def r6_abort(run, F):
         for p, node in hirq.constructs(b["hir"]):
             if hirq.short(p) == "LLVMVerifierFailureAction::LLVMAbortProcessAction":
                 sites.append(F.where(b, node))
-    run.ob("R6-VERIFIER-ABORTS", "verify/verify_function", len(sites) == 3, "src/alpha/generator.rs",
-           "invalid IR makes LLVM abort the process (3 verifier calls with AbortProcessAction: %s); the obligations that keep IR valid are C03's" % sites)
-    run.assume("R6: LLVM's verifier aborts on invalid IR; nothing in this check decides IR validity")
+    run.ob("R6-VERIFIER-ABORTS", "verify/verify_function", len(sites) == 0, "src/alpha/generator.rs",
+           "a verifier failure must come back as an error, not end the process: %d verifier calls use LLVMAbortProcessAction (%s); whenever the "
+           "generator emits invalid IR for an accepted program the compiler aborts inside LLVM" % (len(sites), sites))
+    # LLVMLinkModules2 reports failure through its result (and LLVM's diagnostic handler): it must not be discarded
+    am = F.body("alpha::generator::Generator::add_module")
+    discarded = False
+    for n in walk(am["hir"]):
+        if n.get("k") == "Let" and n["pat"].get("k") == "Wild" and any((hirq.callee(c) or "").endswith("LLVMLinkModules2") for c in hirq.calls(n.get("init", {}))):
+            discarded = True
+    linked = any((hirq.callee(c) or "").endswith("LLVMLinkModules2") for c in hirq.calls(am["hir"]))
+    run.ob("R10-LINK-RESULT-CHECKED", "Generator::add_module", linked and not discarded, F.where(am),
+           "the status returned by LLVMLinkModules2 is discarded (`let _ = ..`): a symbol defined in two modules ends the process inside LLVM "
+           "without a penne diagnostic")
 
 
 def r7_args_covered(run, F):
